@@ -127,6 +127,11 @@ func (i *interpreter) global(g *ssa.Global) *value {
 				i.globals[g] = &cell
 				return &cell
 			}
+			if gm, ok := globalModels[g.Pkg.Pkg.Path()+"."+g.Name()]; ok {
+				cell := gm()
+				i.globals[g] = &cell
+				return &cell
+			}
 			unsupported("global %s needs the initialiser of package %s, which is not on the init list", g.Name(), g.Pkg.Pkg.Path())
 		}
 	}
@@ -440,6 +445,9 @@ func visitInstr(fr *frame, instr ssa.Instruction) continuation {
 		fr.env[instr] = makeMap(instr.Type().Underlying().(*types.Map).Key(), 0)
 
 	case *ssa.Range:
+		if m, ok := fr.get(instr.X).(*omap); ok && m != nil {
+			i.guardCheckObj(m, false)
+		}
 		fr.env[instr] = rangeIter(fr.get(instr.X), instr.X.Type())
 
 	case *ssa.Next:
